@@ -17,7 +17,7 @@ INFO = {
     "outside": ["trees outside the corpus", "histories longer than 2 operations"],
     "stubs": ["memfs for the load / output parts"],
 }
-BUDGET = {"quick": 300, "thorough": 800}
+BUDGET = {"quick": 380, "thorough": 800}
 
 
 def _choice_specs(tid):
@@ -186,7 +186,7 @@ def jobs(tier, seed, excluded=()):
     dom = Dom(int_max=9, int_cands=[], str_mode="cand", str_cands=["p"], hex_cands=["0x1f"], float_cands=["0.25"])
     if tier == "quick":
         trees = ["T07", "T08", "E_choice_default", "E_choice_dep", "E_choice_member_dep", "E_choice_prompt_if", "F:kconfiglib/kconfigs/Kconfig.choices", "F:kconfiglib/kconfigs/Kconfig.nested_choices"]
-        budget, nparts, tmo, nops, nlines = 150, 2, 100, 1, 2
+        budget, nparts, tmo, nops, nlines = 150, 2, 180, 1, 2
     else:
         trees = ["T07", "T08", "T15", "E_choice_default", "E_choice_dep", "E_choice_member_dep", "E_choice_prompt_if"] + ["F:kconfiglib/kconfigs/Kconfig." + x for x in ("choices", "nested_choices", "choice_loading", "choice_non_first_default", "unnamed_choices", "disabled_symbols_choices", "invisible_choice_all_n")] + ["F:menuconfig/kconfigs/Kconfig.choice_default", "F:menuconfig/kconfigs/Kconfig.choice_explicit_default"]
         budget, nparts, tmo, nops, nlines = 250, 4, 200, 2, 3
